@@ -121,7 +121,7 @@ def run(chk, F, tier):
             emp = {e[3] for e in p.calls() if e[1].endswith("::is_empty")}
             if not any(t in emp and ((o == "notin" and v == (0,)) or (o == "==" and v == 1)) for (t, o, v) in p.constraints):
                 okw, why = False, "a path reports success without handing anything to the sink"
-        elif any(not mir.mentions(mir.expand(x[8][1], p), lambda z: z == ("app", tb[0][1], (("arg", 2, "word"),))) for x in tr[:1]):
+        elif any(not mir.mentions(mir.expand(x[8][1], p), lambda z: z == ("app", tb[0][1], (("arg", 2, "arg2"),))) for x in tr[:1]):
             okw, why = False, "the buffer handed to the sink does not come from the serialised word"
     chk.expect("A3.byteorder", "write-whole-word", okw, "WordAdapter::write_word: " + why)
     okr = True
